@@ -45,6 +45,9 @@ INVALID = [
     ('syntax', '# id: k # id: k globally: no a'),
     ('syntax', '# colour: red globally: no a'),
     ('syntax', '# title: notastring globally: no a'),
+    ('syntax', '# title: "a" # title: "b" globally: no a'),
+    ('syntax', '# description: "a" # id: k # description: "a" globally: no a'),
+    ('syntax', '# id: k # title: "t" # id: k2 globally: no a'),
 ]
 
 SEPS = (' ', '\n', '\n\n\t')
@@ -261,7 +264,7 @@ def replay(w):
 def describe(tier):
     b = bounds(tier)
     return {
-        'rule': f"all sequences of 1..{b['seq_len']} properties from a 14-text pool (and {b['seq_len'] + 1}..{b['seq_len_small_pool']} from a 4-text sub-pool) x every assignment of one of the 16 annotation arrangements (subsets and orders of id/title/description) to <= {b['annotated_members']} members, plus all members fully annotated, x 3 separators; one-invalid-member variants (8 kinds x every index in files of 1..3) and dangling/empty/whitespace files. Each file is compared index by index (typed lift and metadata) with the property parser on the parts. A state = one file text; a transition = one specification parse.",
+        'rule': f"all sequences of 1..{b['seq_len']} properties from a 14-text pool (and {b['seq_len'] + 1}..{b['seq_len_small_pool']} from a 4-text sub-pool) x every assignment of one of the 16 annotation arrangements (subsets and orders of id/title/description) to <= {b['annotated_members']} members, plus all members fully annotated, x 3 separators; one-invalid-member variants (11 kinds x every index in files of 1..3) and dangling/empty/whitespace files. Each file is compared index by index (typed lift and metadata) with the property parser on the parts. A state = one file text; a transition = one specification parse.",
         'bounds': b,
         'exhaustive': True,
         'assumptions': ['the property parser on each part alone is the reference (differential oracle); its own correctness is C01'],
